@@ -383,3 +383,29 @@ Theorem C18_later_encodes_do_not_matter : forall decompress c vals more j v,
   run_history decompress c (map (stored c) vals) (map HEnc more ++ [HDec j]) = [Ok v].
 Proof. exact later_encodes_do_not_matter. Qed.
 Print Assumptions C18_later_encodes_do_not_matter.
+
+(* ---- C18_reject_length_prefix.  For EVERY byte string following the session
+   id whose first uvarint decodes to a value n (any n the uvarint can carry, up
+   to 2^64-1 — no signed conversion in the comparison) above chunkSizeLimit or
+   above the number of bytes that remain: every decoder that has a
+   length-prefixed field there answers Err; likewise the nested curve-name
+   prefix inside a session chunk.  With C18_no_panic (every byte string: never
+   Panic) this is the statement the harness's structured length-prefix
+   malformations (0, 1, len±1, limit, limit+1, 2^31-1 .. 2^64-1, non-minimal,
+   over-long) exercise: the implementation's class (error / panic) must equal
+   the model's, so a signed-conversion slip shows up as error vs panic. *)
+Theorem C18_reject_length_prefix : forall decompress c sid8 rest n r1,
+  length sid8 = 8%nat -> read_uvarint rest = Ok (n, r1) ->
+  chunkSizeLimit < n \/ N.of_nat (length r1) < n ->
+  DecodeRound1 c (magicRound1 ++ sid8 ++ rest) = Err /\
+  DecodeRound2 decompress c (magicRound2 ++ sid8 ++ rest) = Err /\
+  DecodeGarblerSession c (magicGarblerSession ++ sid8 ++ rest) = Err /\
+  DecodeEvaluatorSession c (magicEvalSession ++ sid8 ++ rest) = Err.
+Proof. exact reject_length_prefix. Qed.
+Print Assumptions C18_reject_length_prefix.
+
+Theorem C18_reject_nested_length_prefix : forall c sid chunk n r1,
+  read_uvarint chunk = Ok (n, r1) -> chunkSizeLimit < n \/ N.of_nat (length r1) < n ->
+  decodeCOSenderSetup c sid chunk = Err /\ decodeChoiceBundle c sid chunk = Err.
+Proof. exact reject_nested_length_prefix. Qed.
+Print Assumptions C18_reject_nested_length_prefix.
